@@ -140,6 +140,18 @@ fn lang_cmp(s1: &str, s2: &str) -> core::cmp::Ordering {
     s1.as_bytes()[..ea].cmp(&s2.as_bytes()[..eb])
 }
 
+#[cfg(rustybuzz_verif)]
+pub fn verif_lang_cmp(s1: &str, s2: &str) -> core::cmp::Ordering {
+    lang_cmp(s1, s2)
+}
+
+#[cfg(rustybuzz_verif)]
+pub fn verif_tags_from_language(language: &Language) -> ThreeTags {
+    let mut tags = SmallVec::new();
+    tags_from_language(language, &mut tags);
+    tags
+}
+
 fn tags_from_language(language: &Language, tags: &mut ThreeTags) {
     let language = language.as_str();
 
